@@ -41,8 +41,14 @@ def solve(a, b, *, left=True, out=None):
         for v in row:
             if isinstance(v, sx.LogV):
                 raise Unmodelled('linalg.solve on log-domain values')
+    for i in range(n):
+        for j in range(n):
+            v = A[i][j]
             if isinstance(v, sx.SX) and not (v.nan is False and v.pinf is False and v.ninf is False):
-                raise Unmodelled('linalg.solve on possibly non-finite symbolic values')
+                # the caller has just tested for infinities: the path condition decides this without forking
+                if symx.branch(sx.Or(v.nan, v.pinf, v.ninf)):
+                    raise Unmodelled('linalg.solve on non-finite symbolic values')
+                A[i][j] = sx.SX(v.v, sg=v.sg)
     d = _det(A)
     singular = sx.eq(d, 0.0)
     if symx.branch(singular):
